@@ -11,9 +11,14 @@ must unfold to the same term.
 WHAT AN EDIT OF /repo DOES (the tie is exactly this strong, no stronger):
   (a) inside a translated region every statement and expression is read.  An edit there changes the generated term and
       `src_<f>_eq_model` no longer checks -- unless the edit is one of the value-preserving rewrites listed under
-      "Conventions" below (`a > b` / `b < a`, `1.0` / `1`, `+e` / `e`, `flag == True` / `flag`, `0.5 * e` / `e / 2` in the
-      matrix regions, `e ** 2` / `e * e` in heat), a renaming of local variables, or produces a term that still unfolds to
-      the model's (then nothing breaks, and nothing should);
+      "Conventions" below (`a > b` / `b < a`, `1.0` / `1`, `+e` / `e` on numbers, `0.5 * e` / `e / 2` in the matrix regions,
+      `e ** 2` / `e * e` in heat), a renaming of local variables, or produces a term that still unfolds to the model's (then
+      nothing breaks, and nothing should).  The obligations hold UP TO DEFINITIONAL UNFOLDING, which erases a `let` that is
+      never read; the engines therefore REFUSE (Shape) what would only add such a `let` or no text at all: a store whose value
+      nothing reads; a store, inside a loop body or a region, to a name that is bound outside it and is not its declared
+      result (Python carries it to the next iteration and past the loop); a loop index bound twice; a second name for an
+      array / list / record (`y = x`; in-place operations are read only on names that own their value); SSA suffixes and
+      made-up binders are never spelled like an identifier of the Python function or a helper the text mentions;
   (b) what the translation NORMALISES AWAY or never reads is pinned as TEXT (`ast.unparse`, so comments, blank lines and
       docstrings do not count) against the reviewed text in the tables of this file:
         * the rest of the function around a region                        srcSkeleton_<f> / srcSkeletonAfter_<f>
@@ -60,7 +65,10 @@ Conventions (all value-preserving in exact arithmetic; they are the translator's
   * float literals: per target either as written (`2.0`, class `OfScientific`) or, where the model uses numerals,
     the integer they denote (`1.0` -> `1`); a float literal that is not integral is then a Shape error.
   * `e ** 2` on a difference of points -> `e * e` (heat only); every other `**` -> the binary parameter `pow`.
-  * unary `+e` -> `e`;  `flag == True` on a Boolean parameter -> `flag`.
+  * unary `+e` on a number -> `e`;  `flag == True` on a Boolean parameter -> `flag` (the bare truthiness test `if flag:` is
+    outside the subset: it differs from `== True` for a flag that is not a bool).
+  * `np.array(x, dtype=float)` is read only as the whole right-hand side of a top-level statement `y = np.array(x, …)`; the pin
+    records the statement with its index in the function.
   * a 2-vector (row `A[i, 0:2]` of a diagram, `[e] * 2`) is a pair; `A[j, 1::-1]` swaps it; arithmetic on pairs is
     componentwise, `np.sum` of a pair is `.1 + .2`, `np.dot(u, x)` is `u.1 * x.1 + u.2 * x.2`.
   * a vector bound to a name is materialised as a `List` iff that name is a direct argument of `np.sum/len/all`
@@ -119,6 +127,22 @@ def paren(v, minp):
     return "(%s)" % v.t if v.p < minp else v.t
 
 
+def atom_text(t):
+    """`t` if it is an identifier / projection chain or already enclosed in one pair of parentheses, else `(t)`"""
+    if re.match(r"^[\w.']+$", t):
+        return t
+    if t.startswith("(") and t.endswith(")"):
+        d = 0
+        for i, ch in enumerate(t):
+            d += ch == "("
+            d -= ch == ")"
+            if d == 0 and i < len(t) - 1:
+                break
+        else:
+            return t
+    return "(%s)" % t
+
+
 def S(t, p=100):
     return Val("S", t, p)
 
@@ -129,7 +153,7 @@ def comp(v, i):
         raise Shape("component of a non-pair")
     if v.c is not None:
         return v.c[i]
-    return S("%s.%d" % (v.t, i + 1))
+    return S("%s.%d" % (paren(v, 100), i + 1))
 
 
 def pair_text(v):
@@ -150,6 +174,11 @@ LEAN_RESERVED = {
     "axiom", "example", "inductive", "extends", "attribute", "partial", "opaque", "noncomputable",
     "sorry", "admit", "unsafe", "native_decide", "bv_decide", "implemented_by",      # never emit what the token audit greps for
 }
+
+
+# heads of the qualified names / constructors the generated text mentions: never the spelling of a generated binder (a `let
+# PersimVerif := …` would capture `PersimVerif.PNorm.absA`, and would count as "read" in the liveness check)
+TEXT_HEADS = ("PersimVerif", "Option", "Prod", "Int", "Bool", "Float", "String", "some", "none", "id", "natCast", "pow")
 
 
 def dotted(node):
@@ -198,7 +227,7 @@ def render(node, ind):
         head = "%s.foldl (fun (%s : α) (%s : α × α) =>" % (node.lst, node.acc, node.elem)
         out = [ind + ("let %s : α := " % node.name if node.name is not None else "") + head]
         out += render(node.inner, ind + "  ")
-        out[-1] += ") %s" % node.init
+        out[-1] += ") %s" % atom_text(node.init)
         return out + (render(node.body, ind) if node.name is not None else [])
     raise Shape("internal: unknown node")
 
@@ -209,20 +238,28 @@ class Tr:
     def __init__(self, src, fns, cfg):
         self.src, self.fns, self.cfg = src, fns, cfg
         self.env = {}             # python name -> Val
-        self.used = set(LEAN_RESERVED)
+        self.used = set(LEAN_RESERVED) | set(TEXT_HEADS)
         self.rows = {}            # (array python name, index python name) -> pair Val   (rows of a diagram inside a fold)
         self.elemwise_index = None
         self.stmts_after = []     # look-ahead for the materialisation rule
         self.conversions = []     # texts of the array conversions read as the identity (`np.array(x, dtype=float)`)
         self.none_defaults = []   # (parameter, text of the default, its numeric literals) of the skipped `if p is None` guards
+        self.avoid = set()        # every identifier of the Python function: an SSA suffix / derived name never collides with one
+        self.store_counts = {}    # python name -> number of places of the function that bind it (loop indices must have one)
+        self.top_stmts = []       # the statements of the translated region (position of the pinned conversions)
+        self.conv_ok = None       # the conversion call that is the whole right-hand side of the statement being translated
+        self.loop_indices = []    # indices of the enclosing accumulation loops
 
     # --- names
-    def fresh(self, py):
+    def fresh(self, py, derived=False):
+        """a Lean binder for the Python name `py` (`derived`: a name the translator makes up).  Every binder goes through here
+        and every read through `env`, so two binders never share a spelling; a suffixed or made-up name is moreover never the
+        spelling of an identifier of the Python function (`avoid`)."""
         base = py if py not in LEAN_RESERVED else py + "_"
         if not re.match(r"^[A-Za-z_][A-Za-z0-9_]*$", base):
             raise Shape("name %r" % py)
         name, k = base, 0
-        while name in self.used:
+        while name in self.used or ((k > 0 or derived or name != py) and name in self.avoid):
             k += 1
             name = "%s_%d" % (base, k)
         self.used.add(name)
@@ -330,10 +367,10 @@ class Tr:
             raise Shape("comparison %s" % type(op).__name__)
         # `flag == True`
         if isinstance(op, ast.Eq) and isinstance(r, ast.Constant) and r.value is True:
-            v = self.expr(l)
-            if v.k == "B":
+            v = self.expr(l, flag_ok=True)
+            if v.k == "B" and isinstance(l, ast.Name):
                 return v
-            raise Shape("`== True` on a non-Boolean")
+            raise Shape("`== True` on something that is not a Boolean parameter")
         sym, swap = CMP[type(op)]
         a, b = self.expr(l), self.expr(r)
         if swap:
@@ -431,7 +468,7 @@ class Tr:
 
     def materialise_text(self, v):
         """Lean text (an atom) of the list a vector denotes"""
-        var = self.fresh("pt" if v.ek == "pair" else "x")
+        var = self.fresh("pt" if v.ek == "pair" else "x", derived=True)
         xv = Val("P", var) if v.ek == "pair" else S(var)
         body = v.fn(xv)
         self.used.discard(var)
@@ -467,7 +504,7 @@ class Tr:
             for a in args:
                 if a.k not in "SV" or (a.k == "V" and self.materialise_text(a) != a.base):
                     raise Shape("argument of %s is not a scalar or a named list" % name)
-            return S("%s %s" % (h[1], " ".join(a.t if a.k == "S" else a.base for a in args)), 90)
+            return S("%s %s" % (h[1], " ".join(paren(a, 100) if a.k == "S" else atom_text(a.base) for a in args)), 90)
         if node.keywords:
             # `np.array(x, dtype=float)`: a conversion to floating point is the identity of the exact-arithmetic model
             ok = (kind == "id" and len(node.keywords) == 1 and node.keywords[0].arg == "dtype"
@@ -482,8 +519,12 @@ class Tr:
         if kind == "id":
             if len(args) != 1:
                 raise Shape("%s expects one argument" % name)
-            if id(node) not in [i for i, _ in self.conversions]:   # pinned by `src_<f>_conversions` (the dtype is part of the text)
-                self.conversions.append((id(node), one_line(node)))
+            # pinned by `src_<f>_conversions`: position (index of the statement in the function), target, argument and dtype
+            if self.conv_ok is None or self.conv_ok[0] is not node:
+                raise Shape("a conversion %s that is not the whole right-hand side of a top-level statement `x = %s(y, …)`"
+                            % (one_line(node), name))
+            if id(node) not in [i for i, _ in self.conversions]:
+                self.conversions.append((id(node), "[%d] %s" % (self.conv_ok[1], one_line(self.conv_ok[2]))))
             return args[0]
         if kind == "sum":
             if len(args) != 1:
@@ -493,7 +534,7 @@ class Tr:
             v = args[0]
             if len(args) != 1 or v.k != "V":
                 raise Shape("all(...) of a non-vector")
-            var = self.fresh("x" if v.ek != "pair" else "pt")
+            var = self.fresh("x" if v.ek != "pair" else "pt", derived=True)
             b = v.fn(Val("P", var) if v.ek == "pair" else S(var))
             self.used.discard(var)
             if b.k != "B":
@@ -525,12 +566,16 @@ class Tr:
             return S("%s %s" % (h[1], " ".join(texts)), 90)
         raise Shape("internal: handler %s" % kind)
 
-    def expr(self, node):
+    def expr(self, node, flag_ok=False):
         if isinstance(node, ast.Constant):
             return self.lit(node)
         if isinstance(node, ast.Name):
             if node.id not in self.env:
                 raise Shape("name %s is not bound in the translated region" % node.id)
+            if self.env[node.id].k == "B" and not flag_ok:
+                # `if flag:` and `if flag == True:` differ in Python for a flag that is not a bool (`flag=2`): only the
+                # written-out comparison is read (as the model's Boolean), the truthiness test is outside the subset
+                raise Shape("the Boolean parameter %s is used other than as `%s == True`" % (node.id, node.id))
             return self.env[node.id]
         if isinstance(node, ast.Attribute):
             name = dotted(node)
@@ -557,7 +602,10 @@ class Tr:
             if isinstance(node.op, ast.USub):
                 return self.neg(self.expr(node.operand))
             if isinstance(node.op, ast.UAdd):
-                return self.expr(node.operand)
+                v = self.expr(node.operand)
+                if v.k != "S":                 # `+x` is the identity on numbers (NumPy: an equal copy), a TypeError on lists / tuples
+                    raise Shape("unary + on something that is not a number")
+                return v
             raise Shape("unary %s" % type(node.op).__name__)
         if isinstance(node, ast.Compare):
             return self.compare(node)
@@ -623,6 +671,7 @@ class Tr:
     # --- statements
     def bind(self, py, v, k):
         """`py = v` followed by k() -> block"""
+        self.no_index_param(py)
         if v.k == "S":
             name = self.fresh(py)
             self.env[py] = S(name)
@@ -645,6 +694,11 @@ class Tr:
             self.env[py] = v
             return k()
         raise Shape("assignment of kind %s to %s" % (v.k, py))
+
+    def no_index_param(self, py):
+        """`mu[0]` of a tuple parameter is resolved by the spelling `mu`: a store to `mu` would leave the entries stale"""
+        if py in self.cfg.get("index_params", {}) or py == self.elemwise_index:
+            raise Shape("assignment to %s, whose entries / elements are resolved by its spelling" % py)
 
     def elem_kind(self, v):
         var = "_probe"
@@ -760,12 +814,22 @@ class Tr:
                 raise Shape("chained assignment")
             tgt = s.targets[0]
             if isinstance(tgt, ast.Name):
-                return self.bind(tgt.id, self.expr(s.value), lambda: self.block(rest))
+                top = [i for i, t in enumerate(self.top_stmts) if t is s]
+                self.conv_ok = (s.value, top[0], s) if top and not self.loop_indices else None
+                try:
+                    v = self.expr(s.value)
+                finally:
+                    self.conv_ok = None
+                return self.bind(tgt.id, v, lambda: self.block(rest))
             if isinstance(tgt, ast.Tuple) and len(tgt.elts) == 2 and all(isinstance(e, ast.Name) for e in tgt.elts):
                 v = self.expr(s.value)
                 if v.k != "P":
                     raise Shape("tuple assignment from a non-pair")
-                name = self.fresh("%s_%s" % (tgt.elts[0].id, tgt.elts[1].id))
+                if tgt.elts[0].id == tgt.elts[1].id:
+                    raise Shape("a name twice in one tuple target")
+                for e in tgt.elts:
+                    self.no_index_param(e.id)
+                name = self.fresh("%s_%s" % (tgt.elts[0].id, tgt.elts[1].id), derived=True)
                 text = pair_text(v).t if v.c is not None else v.t
                 self.env[tgt.elts[0].id] = S(name + ".1")
                 self.env[tgt.elts[1].id] = S(name + ".2")
@@ -826,18 +890,31 @@ class Tr:
         init = self.env.get(acc_py)
         if init is None or init.k != "S":
             raise Shape("accumulator %s is not initialised to a scalar" % acc_py)
+        # rows are resolved by the SPELLING of the index (`A[i, 0:2]` is the element of the fold over `A` indexed by `i`): the
+        # index must be bound by this loop header and by nothing else in the function (no `i = 0`, no inner loop reusing `i`)
+        if idx in self.env or idx in self.loop_indices or idx == acc_py or self.store_counts.get(idx, 0) != 1:
+            raise Shape("the loop index %s is bound elsewhere in the function (rows are resolved by its spelling)" % idx)
+        # Python carries every name a loop body assigns to the next iteration and past the loop; the fold carries the
+        # accumulator only: a store to any other name that is bound outside the body is outside the subset
+        for nm in stored_names(s.body):
+            if nm != acc_py and (nm in self.env or nm in self.loop_indices or nm == idx):
+                raise Shape("the loop body assigns %s, which is bound outside the loop and is not its accumulator" % nm)
         body = list(s.body)
         # the row binding `p = A[i, 0:2]` names the element
         elem_py = None
         if body and isinstance(body[0], ast.Assign) and len(body[0].targets) == 1 and isinstance(body[0].targets[0], ast.Name) \
                 and ast.unparse(body[0].value) == "%s[%s, 0:2]" % (arr, idx):
             elem_py = body[0].targets[0].id
-        elem = self.fresh(elem_py or "row")
+        elem = self.fresh(elem_py or "row", derived=elem_py is None)
         acc = self.fresh(acc_py)
         saved_env, saved_rows = dict(self.env), dict(self.rows)
         self.rows[(arr, idx)] = Val("P", elem)
         self.env[acc_py] = S(acc)
-        inner = self.loop_body(body, acc_py)
+        self.loop_indices.append(idx)
+        try:
+            inner = self.loop_body(body, acc_py)
+        finally:
+            self.loop_indices.pop()
         self.env, self.rows = saved_env, saved_rows
         out = self.fresh(acc_py)
         self.env[acc_py] = S(out)
@@ -876,6 +953,171 @@ class Tr:
 
 def render_def(node, ind="  "):
     return "\n".join(render(node, ind))
+
+
+def stored_names(stmts):
+    """python names that the statements bind (assignment / augmented assignment / loop / with / except / import / def targets,
+    walrus), at any depth; comprehension variables live in their own scope and are not included"""
+    out = []
+
+    def tgt(t):
+        if isinstance(t, ast.Name):
+            if t.id not in out:
+                out.append(t.id)
+        elif isinstance(t, (ast.Tuple, ast.List)):
+            for e in t.elts:
+                tgt(e)
+        elif isinstance(t, ast.Starred):
+            tgt(t.value)
+
+    def walk(n):
+        if isinstance(n, (ast.ListComp, ast.SetComp, ast.DictComp, ast.GeneratorExp, ast.Lambda)):
+            return
+        if isinstance(n, ast.Assign):
+            for t in n.targets:
+                tgt(t)
+        elif isinstance(n, (ast.AugAssign, ast.AnnAssign)):
+            tgt(n.target)
+        elif isinstance(n, (ast.For, ast.AsyncFor)):
+            tgt(n.target)
+        elif isinstance(n, (ast.With, ast.AsyncWith)):
+            for it in n.items:
+                if it.optional_vars is not None:
+                    tgt(it.optional_vars)
+        elif isinstance(n, ast.NamedExpr):
+            tgt(n.target)
+        elif isinstance(n, ast.ExceptHandler) and n.name:
+            tgt(ast.Name(id=n.name))
+        elif isinstance(n, (ast.FunctionDef, ast.AsyncFunctionDef, ast.ClassDef)):
+            tgt(ast.Name(id=n.name))
+            return
+        elif isinstance(n, (ast.Import, ast.ImportFrom)):
+            for a in n.names:
+                tgt(ast.Name(id=(a.asname or a.name.split(".")[0])))
+        elif isinstance(n, ast.Delete):
+            for t in n.targets:
+                tgt(t)
+        elif isinstance(n, (ast.Global, ast.Nonlocal)):
+            for nm in n.names:
+                tgt(ast.Name(id=nm))
+        for c in ast.iter_child_nodes(n):
+            walk(c)
+    for st in stmts:
+        walk(st)
+    return out
+
+
+def names_outside(fn, region):
+    """every identifier (`Name`, parameter) that occurs in the function `fn` OUTSIDE the statements `region`; the variables of
+    a comprehension / lambda are local to it and do not count"""
+    skip = {id(s) for s in region}
+    out = set()
+
+    def walk(n, shadow):
+        if id(n) in skip:
+            return
+        if isinstance(n, (ast.ListComp, ast.SetComp, ast.DictComp, ast.GeneratorExp)):
+            loc = set(shadow)
+            for g in n.generators:
+                loc |= {x.id for x in ast.walk(g.target) if isinstance(x, ast.Name)}
+            for c in ast.iter_child_nodes(n):
+                walk(c, loc)
+            return
+        if isinstance(n, ast.Lambda):
+            loc = set(shadow) | {a.arg for a in ast.walk(n.args) if isinstance(a, ast.arg)}
+            walk(n.body, loc)
+            return
+        if isinstance(n, ast.Name) and n.id not in shadow:
+            out.add(n.id)
+        elif isinstance(n, ast.arg):
+            out.add(n.arg)
+        elif isinstance(n, ast.ExceptHandler) and n.name:
+            out.add(n.name)
+        elif isinstance(n, (ast.Global, ast.Nonlocal)):
+            out.update(n.names)
+        for c in ast.iter_child_nodes(n):
+            walk(c, shadow)
+    walk(fn, set())
+    return out
+
+
+def function_identifiers(fn):
+    """every identifier that occurs anywhere in a Python function (names, parameters, attribute and keyword names, nested defs,
+    handlers, imports): what an SSA suffix or a made-up binder must not be spelled like"""
+    out = set()
+    for n in ast.walk(fn):
+        if isinstance(n, ast.Name):
+            out.add(n.id)
+        elif isinstance(n, ast.arg):
+            out.add(n.arg)
+        elif isinstance(n, ast.Attribute):
+            out.add(n.attr)
+        elif isinstance(n, ast.keyword) and n.arg:
+            out.add(n.arg)
+        elif isinstance(n, (ast.FunctionDef, ast.AsyncFunctionDef, ast.ClassDef)):
+            out.add(n.name)
+        elif isinstance(n, ast.ExceptHandler) and n.name:
+            out.add(n.name)
+        elif isinstance(n, (ast.Import, ast.ImportFrom)):
+            for a in n.names:
+                out.add(a.asname or a.name.split(".")[0])
+        elif isinstance(n, (ast.Global, ast.Nonlocal)):
+            out.update(n.names)
+    return out
+
+
+def binding_counts(fn):
+    """python name -> number of binding occurrences in the function (parameters, every Store / Del target, loop and
+    comprehension variables, handlers, nested defs, imports, walrus, global declarations)"""
+    out = {}
+
+    def add(nm):
+        out[nm] = out.get(nm, 0) + 1
+    for n in ast.walk(fn):
+        if isinstance(n, ast.Name) and not isinstance(n.ctx, ast.Load):
+            add(n.id)
+        elif isinstance(n, ast.arg):
+            add(n.arg)
+        elif isinstance(n, ast.ExceptHandler) and n.name:
+            add(n.name)
+        elif isinstance(n, (ast.FunctionDef, ast.AsyncFunctionDef, ast.ClassDef)) and n is not fn:
+            add(n.name)
+        elif isinstance(n, (ast.Import, ast.ImportFrom)):
+            for a in n.names:
+                add(a.asname or a.name.split(".")[0])
+        elif isinstance(n, (ast.Global, ast.Nonlocal)):
+            for nm in n.names:
+                add(nm)
+    return out
+
+
+def reads_name(name, text):
+    """does the identifier `name` occur in the Lean text (not as a field `.name`, not inside a longer identifier)?"""
+    return re.search(r"(?<![\w.'])%s(?![\w'])" % re.escape(name), text) is not None
+
+
+def check_liveness(node, what="assignment", allow=()):
+    """DEAD STORES.  The obligations are proved up to definitional unfolding, which erases a `let` that is never read: a Python
+    store that the translation turns into such a `let` (a store to a name that lives beyond the translated body -- a
+    parameter, an outer variable, a name the pinned text around the region reads -- placed after its last use there) would
+    change the program and no obligation.  Every generated binding must therefore be read by what follows it."""
+    if isinstance(node, Let):
+        if node.name not in allow and not any(reads_name(node.name, ln) for ln in render(node.body, "")):
+            raise Shape("the value bound to `%s` is never read: a dead store (or a store to a name that outlives the translated "
+                        "region) is outside the subset" % node.name)
+        check_liveness(node.body, what, allow)
+    elif isinstance(node, Ite):
+        check_liveness(node.a, what, allow)
+        check_liveness(node.b, what, allow)
+    elif isinstance(node, Fold):
+        inner = render(node.inner, "")
+        if not any(reads_name(node.acc, ln) for ln in inner):
+            raise Shape("the accumulator `%s` of a loop is never read by its body" % node.acc)
+        check_liveness(node.inner, what, allow)
+        if node.name is not None:
+            if not any(reads_name(node.name, ln) for ln in render(node.body, "")):
+                raise Shape("the result `%s` of a loop is never read" % node.name)
+            check_liveness(node.body, what, allow)
 
 
 # ----------------------------------------------------------------------------- targets (fixed; reviewed against the models)
@@ -943,7 +1185,7 @@ TARGETS = [
          fparams=[("exp", A1)], cparams=[("pi", "α")],
          params=[("dgm1", "LP"), ("dgm2", "LP"), ("sigma", "S")],
          calls={"np.array": ("id",), "np.exp": ("fn", "exp", 1), "np.sum": ("sum",)}, attrs={"np.pi": "pi"},
-         square_as_mul=True, lit="nat", conversions=["np.array(dgm1, dtype=float)", "np.array(dgm2, dtype=float)"],
+         square_as_mul=True, lit="nat", conversions=["[1] I1 = np.array(dgm1, dtype=float)", "[2] I2 = np.array(dgm2, dtype=float)"],
          obligations=[("src_evalHeatKernel_eq_model", "", "evalHeatKernel (α := α) = PersimVerif.Heat.evalHeatKernel", "rfl",
                        "the double loop is the model's double left fold, the summand is `kTerm`, the final division is the same")]),
     dict(file="heat", func="heat", lean="heat", region="function",
@@ -1409,8 +1651,13 @@ def unparse_with_holes(stmts, holes, collapse=False):
 #   srcNoneDefaults_<f>     / src_<f>_none_defaults       the `if p is None: p = <default>` guards it skips
 
 def one_line(node, limit=160):
+    """`ast.unparse` on one line; a text longer than `limit` is cut and closed with a digest of the WHOLE text, so two different
+    long texts never give the same pin"""
     t = " ".join(ast.unparse(node).split())
-    return t if len(t) <= limit else t[:limit - 3] + "..."
+    if len(t) <= limit:
+        return t
+    import hashlib
+    return t[:limit - 20] + "...#" + hashlib.sha256(t.encode("utf-8")).hexdigest()[:16]
 
 
 def signature_text(fn):
@@ -1524,14 +1771,92 @@ def scope_bindings(stmts):
 
 
 def global_declarations(tree):
-    """[(name, text)] for `global x` declarations inside functions (a function that may rebind the module-level name)"""
+    """[(name, text)] for `global x` declarations inside functions AND class bodies (a scope that may rebind the module-level
+    name; a class body with `global x` rebinds it when the module is imported) -- plus, for a class body, what it then binds"""
     out = []
-    for f in ast.walk(tree):
-        if isinstance(f, (ast.FunctionDef, ast.AsyncFunctionDef)):
-            for n in ast.walk(f):
-                if isinstance(n, ast.Global):
-                    for nm in n.names:
-                        out.append((nm, "global %s in def %s" % (nm, f.name)))
+
+    def walk(node, scope):
+        for n in ast.iter_child_nodes(node):
+            if isinstance(n, ast.Global) and scope is not None:
+                for nm in n.names:
+                    out.append((nm, "global %s in %s" % (nm, scope)))
+            if isinstance(n, (ast.FunctionDef, ast.AsyncFunctionDef)):
+                walk(n, "def %s" % n.name)
+            elif isinstance(n, ast.ClassDef):
+                gl = {nm for g in ast.walk(n) if isinstance(g, ast.Global) for nm in g.names}
+                walk(n, "class %s" % n.name)
+                if gl:                                   # the class body runs at import time: its bindings of those names count
+                    for nm, t in scope_bindings(n.body):
+                        if nm in gl:
+                            out.append((nm, "in class %s: %s" % (n.name, t)))
+            else:
+                walk(n, scope)
+    walk(tree, None)
+    return out
+
+
+def import_aliases(tree):
+    """{name: top-level package} for the names the module's own scope binds by `import` / `from … import`"""
+    out = {}
+
+    def visit(seq):
+        for s in seq:
+            if isinstance(s, ast.Import):
+                for a in s.names:
+                    out.setdefault(a.asname or a.name.split(".")[0], set()).add(a.name.split(".")[0])
+            elif isinstance(s, ast.ImportFrom):
+                for a in s.names:
+                    if a.name != "*":
+                        out.setdefault(a.asname or a.name, set()).add((s.module or ".").split(".")[0] if not s.level else "." * s.level + (s.module or "").split(".")[0])
+            elif isinstance(s, (ast.If, ast.For, ast.While, ast.With, ast.Try)):
+                for f in ("body", "orelse", "finalbody"):
+                    visit(getattr(s, f, []) or [])
+                for h in getattr(s, "handlers", []) or []:
+                    visit(h.body)
+    visit(tree.body)
+    return out
+
+
+def mutated_roots(tree):
+    """[(root name, text)] for the statements of the module's own scope that assign to / delete an ATTRIBUTE or an ITEM of a name
+    (`_n.exp = _n.expm1`, `del np.sqrt`, `table[k] = v`): they change the object the name stands for"""
+    out = []
+
+    def root(t):
+        if isinstance(t, (ast.Attribute, ast.Subscript)):
+            while isinstance(t, (ast.Attribute, ast.Subscript)):
+                t = t.value
+            return t.id if isinstance(t, ast.Name) else None
+        return None
+
+    def targets(t):
+        if isinstance(t, (ast.Tuple, ast.List)):
+            return [x for e in t.elts for x in targets(e)]
+        if isinstance(t, ast.Starred):
+            return targets(t.value)
+        return [t]
+
+    def visit(seq):
+        for s in seq:
+            ts = []
+            if isinstance(s, ast.Assign):
+                ts = [x for t in s.targets for x in targets(t)]
+            elif isinstance(s, (ast.AugAssign, ast.AnnAssign)):
+                ts = targets(s.target)
+            elif isinstance(s, ast.Delete):
+                ts = [x for t in s.targets for x in targets(t)]
+            elif isinstance(s, (ast.For, ast.AsyncFor)):
+                ts = targets(s.target)
+            for t in ts:
+                r = root(t)
+                if r is not None:
+                    out.append((r, ("del: " if isinstance(s, ast.Delete) else "assign: ") + one_line(s)))
+            if isinstance(s, (ast.If, ast.For, ast.AsyncFor, ast.While, ast.With, ast.AsyncWith, ast.Try)) or type(s).__name__ == "TryStar":
+                for f in ("body", "orelse", "finalbody"):
+                    visit(getattr(s, f, []) or [])
+                for h in getattr(s, "handlers", []) or []:
+                    visit(h.body)
+    visit(tree.body)
     return out
 
 
@@ -1604,6 +1929,16 @@ def file_bindings(tree, functions):
             for n in ast.walk(b):
                 if isinstance(n, ast.Name) and n.id not in names:
                     names.append(n.id)
+    # a library patched through ANOTHER spelling of the same package (`import numpy as _n; _n.exp = _n.expm1`): a name that the
+    # module imports from a package one of the tracked names comes from, and whose attributes / items a module-level statement
+    # assigns or deletes, is tracked as well (with that import and that statement)
+    imps = import_aliases(tree)
+    tracked_pkgs = set()
+    for nm in names:
+        tracked_pkgs |= imps.get(nm, set())
+    for r, _ in mutated_roots(tree):
+        if r not in names and imps.get(r, set()) & tracked_pkgs:
+            names.append(r)
     out = []
     for nm in sorted(names):
         texts = [t for n, t in mod if n == nm] + stars + [t for n, t in globs if n == nm]
@@ -1846,6 +2181,19 @@ def translate(src, fns, cfg):
     tcfg["yield"] = cfg.get("yield_")
     tr = Tr(src, fns, tcfg)
     tr.elemwise_index = setup.get("elemwise_index")
+    tr.avoid = function_identifiers(fn)
+    tr.store_counts = binding_counts(fn)
+    tr.top_stmts = list(stmts) if cfg["region"] == "function" else []
+    if cfg["region"] in ("elementwise_loop", "segment_loop", "entropy_loop"):
+        # the region is the body of a Python loop: what it stores to a name that also occurs outside it (a parameter, the
+        # loop variable, anything the pinned text around it reads) reaches the next iteration and the code after the loop,
+        # which the per-element definition does not model -- only the declared result (`w[i] = …`, `result += …`,
+        # `ps.append(…)`) leaves the body
+        outside = names_outside(fn, stmts)
+        y = cfg.get("yield_")
+        for nm in stored_names(stmts):
+            if nm in outside and not (y is not None and y[0] == "aug" and nm == y[1]):
+                raise Shape("the loop body assigns %s, which also occurs outside the translated loop body" % nm)
     binders = []
     for name, ty in cfg.get("fparams", []) + cfg.get("cparams", []):
         tr.used.add(name)
@@ -1868,6 +2216,7 @@ def translate(src, fns, cfg):
         elif kind == "LP":
             tr.env[py] = Val("V", base=lean, ek="pair", fn=lambda x: x)
     node = tr.block(list(stmts))
+    check_liveness(node)
     # group consecutive binders of one type
     groups = []
     for name, ty in binders:
@@ -1931,10 +2280,15 @@ def header(key):
         "    explicit parameters; `np.abs`, `sorted`, `cityblock` are the model's helpers named in the text; `np.array(x[, dtype=float])`\n"
         "    is `x` (and is recorded as written in `srcConversions_<f>`);\n"
         "  * float literals are written as in the source where the model has `OfScientific` (`2.0`), otherwise as the numeral\n"
-        "    they denote (`1.0` ↦ `1`); `e ** 2` on a difference of points is `e * e`; unary `+e` is `e`; `flag == True` is `flag`;\n"
+        "    they denote (`1.0` ↦ `1`); `e ** 2` on a difference of points is `e * e`; unary `+e` on a number is `e`; `flag == True`\n"
+        "    on a Boolean parameter is `flag` (the bare test `if flag:` is refused: it differs for a flag that is not a bool);\n"
         "  * a 2-vector (row `A[i, 0:2]`, `[e] * 2`) is a pair, `A[j, 1::-1]` swaps it, pair arithmetic is componentwise,\n"
         "    `np.sum` of a pair is `.1 + .2`, `np.dot(u, x)` is `u.1 * x.1 + u.2 * x.2`; `sorted((a, b))` is\n"
         "    `if b < a then (b, a) else (a, b)`.\n"
+        "Refused (the obligations hold up to definitional unfolding, which erases an unread `let`): a store whose value nothing reads;\n"
+        "a store, inside a loop body, to a name bound outside it other than the accumulator / declared result; a loop index that is\n"
+        "bound anywhere else in the function (rows `A[i, 0:2]` are resolved by the spelling of `i`); a conversion `np.array(…)` that\n"
+        "is not the whole right-hand side of a top-level statement.  SSA suffixes never collide with an identifier of the function.\n"
         "A source outside the subset gives `def srcShape_<f> : Bool := false`, and `srcShape_<f>_recognised` fails.\n"
         "`srcSkeleton_<f>` is the text (`ast.unparse`) of the function around the translated region, `...` marking the region;\n"
         "`srcDefaults_<f>` are the numeric keyword defaults as written.\n"
@@ -2017,7 +2371,9 @@ def render_file(key, root):
             names.append("src_%s_signature" % sanitize(cfg["func"]))
         if pins["conversions"] or cfg.get("conversions"):
             o.append("/-- the array conversions at the entry of `%s` that the translation reads as the identity of the exact-arithmetic\n"
-                     "    model (`np.array(x, dtype=float)` ↦ `x`), as written: the dtype they convert to is part of the text -/" % cfg["func"])
+                     "    model (`np.array(x, dtype=float)` ↦ `x`): `[index of the statement in the function] statement as written` -- a\n"
+                     "    conversion is read only as the whole right-hand side of a top-level statement, so its position, its target, its\n"
+                     "    argument and the dtype it converts to are all part of the text -/" % cfg["func"])
             o.append("def srcConversions_%s : List String :=\n  [%s]" % (f, ", ".join(lean_str(t) for t in pins["conversions"])))
             o.append("theorem src_%s_conversions : srcConversions_%s =\n  [%s] := rfl\n" % (
                 f, f, ", ".join(lean_str(t) for t in cfg.get("conversions", []))))
